@@ -13,8 +13,10 @@ package main
 
 import (
 	"context"
+	"errors"
 	"fmt"
 	"sort"
+	"strconv"
 	"strings"
 	"sync"
 
@@ -134,9 +136,9 @@ func crafted() []string {
 		{Obj: "doc:1", Rel: "blocked", User: "user:*"}, {Obj: "doc:2", Rel: "viewer", User: "user:a"},
 	}
 	ctxT := []fga.Tuple{
-		{Obj: "doc:1", Rel: "viewer", User: "user:z"},                 // duplicate of a stored key
-		{Obj: "doc:1", Rel: "viewer", User: "user:a"},                 // new
-		{Obj: "doc:1", Rel: "parent", User: "folder:p2", Cond: "c1"},  // duplicate of a stored key with another condition
+		{Obj: "doc:1", Rel: "viewer", User: "user:z"},                // duplicate of a stored key
+		{Obj: "doc:1", Rel: "viewer", User: "user:a"},                // new
+		{Obj: "doc:1", Rel: "parent", User: "folder:p2", Cond: "c1"}, // duplicate of a stored key with another condition
 		{Obj: "doc:1", Rel: "parent", User: "folder:p0"},
 		{Obj: "doc:0", Rel: "viewer", User: "user:q"},
 	}
@@ -144,8 +146,8 @@ func crafted() []string {
 		target{"", "viewer"}, target{"doc:1", ""}, target{"doc:*", "viewer"}, target{"nosuch:1", "viewer"}, target{"doc:1", "nosuch"})))
 	// invalid contextual tuples: the first failure decides the error class
 	bad := [][]fga.Tuple{
-		{{Obj: "doc:1", Rel: "viewer", User: "folder:x"}},                                    // type restriction
-		{{Obj: "doc:1", Rel: "editor", User: "user:a", Cond: "c2"}},                          // undefined condition
+		{{Obj: "doc:1", Rel: "viewer", User: "folder:x"}},                                            // type restriction
+		{{Obj: "doc:1", Rel: "editor", User: "user:a", Cond: "c2"}},                                  // undefined condition
 		{{Obj: "doc:1", Rel: "parent", User: "folder:p", Cond: "c1", Ctx: []fga.KV{{K: "y", V: 1}}}}, // foreign parameter
 		{{Obj: "doc:1", Rel: "nosuch", User: "user:a"}},
 		{{Obj: "doc:1", Rel: "viewer", User: "alien:a"}},
@@ -179,6 +181,20 @@ func gen(r *hx.Rand, n int, tier string, emit func(string), st *hx.Stats) {
 	for _, c := range crafted() {
 		emit(c)
 		st.Inc("crafted")
+	}
+	// interrupted reads: the datastore iterator fails after k tuples (cancellation, deadline, other error); Expand must
+	// answer with an error, never with a shorter leaf
+	for _, kind := range []string{"canceled", "deadline", "other"} {
+		for j := 0; j < 4; j++ {
+			c := r.Fork()
+			nUsers := 2 + c.Intn(8)
+			k := (c.Intn(97) + j) % nUsers // inside the data
+			if j == 3 {
+				k = nUsers + 1 + c.Intn(2) // beyond the data: the full leaf
+			}
+			emit(fmt.Sprintf("cut %d %d %s", nUsers, k, kind))
+			st.Inc("cut")
+		}
 	}
 	for i := 0; i < n; {
 		c := r.Fork()
@@ -447,6 +463,9 @@ func exec(line string, st *hx.Stats) string {
 		t.Expect("seq")
 		return execSeq(t, st)
 	}
+	if strings.HasPrefix(line, "cut ") {
+		return execCut(strings.Fields(line))
+	}
 	t.Expect("exp")
 	validated := t.Int() == 1
 	m := fga.DecodeModel(t)
@@ -491,6 +510,77 @@ func exec(line string, st *hx.Stats) string {
 		st.Inc("out:tree")
 	}
 	return strings.Join(outs, " | ")
+}
+
+type cutDS struct {
+	storage.OpenFGADatastore
+	after int
+	err   error
+}
+
+func (c *cutDS) Read(ctx context.Context, store string, filter storage.ReadFilter, options storage.ReadOptions) (storage.TupleIterator, error) {
+	it, err := c.OpenFGADatastore.Read(ctx, store, filter, options)
+	if err != nil {
+		return nil, err
+	}
+	return &cutIter{TupleIterator: it, left: c.after, err: c.err}, nil
+}
+
+type cutIter struct {
+	storage.TupleIterator
+	left int
+	err  error
+}
+
+func (i *cutIter) Next(ctx context.Context) (*openfgav1.Tuple, error) {
+	if i.left <= 0 {
+		return nil, i.err
+	}
+	i.left--
+	return i.TupleIterator.Next(ctx)
+}
+
+func (i *cutIter) Head(ctx context.Context) (*openfgav1.Tuple, error) {
+	if i.left <= 0 {
+		return nil, i.err
+	}
+	return i.TupleIterator.Head(ctx)
+}
+
+// execCut: "cut <N> <k> <kind>": doc:1#viewer has N direct users; the read fails after k tuples. Output "err" | "ok <n>".
+func execCut(f []string) string {
+	nUsers, _ := strconv.Atoi(f[1])
+	k, _ := strconv.Atoi(f[2])
+	var fault error
+	switch f[3] {
+	case "canceled":
+		fault = context.Canceled
+	case "deadline":
+		fault = context.DeadlineExceeded
+	default:
+		fault = errors.New("boom")
+	}
+	model := &openfgav1.AuthorizationModel{Id: fgarun.ModelID, SchemaVersion: typesystem.SchemaVersion1_1,
+		TypeDefinitions: []*openfgav1.TypeDefinition{{Type: "user"}, {Type: "doc", Relations: map[string]*openfgav1.Userset{"viewer": {Userset: &openfgav1.Userset_This{}}},
+			Metadata: &openfgav1.Metadata{Relations: map[string]*openfgav1.RelationMetadata{"viewer": {DirectlyRelatedUserTypes: []*openfgav1.RelationReference{{Type: "user"}}}}}}}}
+	ts, err := typesystem.NewAndValidate(context.Background(), model)
+	if err != nil {
+		return "invalid-model"
+	}
+	mem := memory.New()
+	defer mem.Close()
+	for i := 0; i < nUsers; i++ {
+		if err := mem.Write(context.Background(), fgarun.StoreID, nil, []*openfgav1.TupleKey{{Object: "doc:1", Relation: "viewer", User: fmt.Sprintf("user:%d", i)}}); err != nil {
+			return "setuperr"
+		}
+	}
+	q := commands.NewExpandQuery(&cutDS{OpenFGADatastore: mem, after: k, err: fault})
+	resp, err := q.Execute(typesystem.ContextWithTypesystem(context.Background(), ts), &openfgav1.ExpandRequest{
+		StoreId: fgarun.StoreID, TupleKey: &openfgav1.ExpandRequestTupleKey{Object: "doc:1", Relation: "viewer"}})
+	if err != nil {
+		return "err"
+	}
+	return fmt.Sprintf("ok %d", len(resp.GetTree().GetRoot().GetLeaf().GetUsers().GetUsers()))
 }
 
 func main() { hx.Main(hx.Harness{Gen: gen, Exec: exec}) }
